@@ -186,10 +186,7 @@ section FileData
 open SpVerif.FileData
 
 /-- one setter call (the setters of `Model/FileData.lean`); a refused call leaves the PDU unchanged -/
-def fdStep (p : Pdu) (s : Setter) : Pdu × Option Err :=
-  match (p.put s).recalc with
-  | .ok q => (q, none)
-  | .error e => (p, some e)
+def fdStep (p : Pdu) (s : Setter) : Pdu × Option Err := p.step s
 
 def fdMachine : Machine Pdu Setter := ⟨fdStep⟩
 
@@ -230,11 +227,10 @@ def frameStep (s : FrameS) : FrameOp → FrameS × Option Err
     if size > tfdfMaxSize - s.frame.tfdf.headerLen then (s, some .value)
     else ({ frame := { s.frame with tfdf := { s.frame.tfdf with tfdz := d } }, size := size }, none)
   | .setFrameLen =>
-    match s.frame.header with
-    | .primary h =>
-      if s.len - 1 > 65535 then (s, some .value)
-      else ({ s with frame := { s.frame with header := .primary { h with frameLen := s.len - 1 } } }, none)
-    | .truncated _ => (s, none)
+    -- the C17 model function, on the length `TransferFrame.len()` reports (cached data-field size)
+    match s.frame.setFrameLenWith s.len with
+    | .ok f => ({ s with frame := f }, none)
+    | .error e => (s, some e.toErr)
 
 def frameMachine : Machine FrameS FrameOp := ⟨frameStep⟩
 
